@@ -12,6 +12,15 @@ def check_fn_tables(prog, res, rule, fns, alias=None, only_ok=False):
             continue
         got = [[a, v] for a, v in accept.ret_table(prog, fn, alias=alias, only_ok=only_ok)]
         res.functions.add(fn)
+        if isinstance(want, dict):
+            # {"default": V, "rows": [...]}: the rows with another value are listed; every remaining path returns V.
+            # The paths of a function partition its inputs, so the default rows are the complement and need not be
+            # spelled out (their spelling depends on the order of `&&` operands and of early returns).
+            dflt = want["default"]
+            other = [r for r in got if r[1] != dflt]
+            if not any(r[1] == dflt for r in got):
+                other = other + [[["<no path returns the default %s>" % dflt], dflt]]
+            got, want = other, want["rows"]
         ok = got == want
         res.oblige(ok, "table")
         if ok:
